@@ -1,10 +1,88 @@
-(* C15 - statements only (work in progress). *)
+(* C15 - FRU inventory parsing inverts the FRU storage format and enforces its
+   checksums.  Statements only; every proof is [exact <lemma>].
+   parse_inventory etc.: Model/FruParse.v (hand model of pyipmi/fru.py, fields.py with the
+   repairs F15a and F15b, utils.bcd_decode; BCD_MAP and CUSTOM_FIELD_END regenerated in
+   Gen/FruTables.v).  enc_inventory, wf_inv, view_inventory: Model/FruSpec.v (independent
+   encoder of the FRU Information Storage Definition). *)
 From Coq Require Import String.
 From Coq Require Import NArith List.
-From PyIpmi Require Import Lib.Res Lib.Bytes Gen.FruTables Model.FruParse Model.FruSpec Proofs.FruParseProofs.
+From PyIpmi Require Import Lib.Res Lib.Bytes Gen.FruTables Model.FruParse Model.FruSpec
+  Proofs.FruParseProofs Proofs.FruChecksumProofs Proofs.FruEncBytesProofs.
 Import ListNotations.
 Open Scope N_scope.
 
+(* the translator recognised BCD_MAP and CUSTOM_FIELD_END as literals (fail-closed) *)
 Theorem C15_tables_translated : fru_tables_untranslated = None.
 Proof. exact fru_tables_translated. Qed.
 Print Assumptions C15_tables_translated.
+
+(* Parsing the image of ANY well-formed inventory - every subset of internal use /
+   chassis / board / product / multi-record areas; binary, BCD plus, 6-bit ASCII and
+   8-bit fields of 0..63 data bytes; any number of custom fields and of multi-records
+   (0..255 bytes each, PICMG and power-module-capability records decoded) - yields
+   exactly the values that were encoded: header offsets, area lengths, chassis type /
+   language code, manufacturing date (minutes since 1996-01-01), every field's type,
+   length, raw bytes and string, every record's type, version, end-of-list, length,
+   payload and PICMG members. *)
+Theorem C15_parse_enc : forall s, wf_inv s = true ->
+  parse_inventory (enc_inventory s) = Ok (Some (view_inventory s)).
+Proof. exact parse_enc. Qed.
+Print Assumptions C15_parse_enc.
+
+(* ... and that image is a byte string (every bound of wf_inv is needed for this) *)
+Theorem C15_enc_is_bytes : forall s, wf_inv s = true -> bytes_ok (enc_inventory s) = true.
+Proof. exact enc_inventory_bytes. Qed.
+Print Assumptions C15_enc_is_bytes.
+
+(* the same for the area classes applied to exactly the area's bytes (what
+   Fru.get_fru_chassis_area / board / product / multirecord hand to them) *)
+Theorem C15_area_enc : forall dated nf a rest, wf_area dated nf a = true ->
+  area_obj dated nf (enc_area dated a ++ rest) = Ok (Parsed (view_area dated a)).
+Proof. exact area_obj_enc. Qed.
+Print Assumptions C15_area_enc.
+
+Theorem C15_multi_enc : forall rs, rs <> [] -> forallb wf_rec rs = true ->
+  multi_obj (enc_recs rs) = Ok (MParsed (view_recs rs)).
+Proof. exact multi_obj_enc. Qed.
+Print Assumptions C15_multi_enc.
+
+(* An image is accepted only if: the common header (8 bytes) sums to zero; every info
+   area that was parsed sums to zero over the extent its own length byte states; every
+   multi-record header (5 bytes) sums to zero and every record body together with its
+   checksum byte sums to zero, the records lying back to back from the header's offset.
+   (checksums_hold is spelled out in Proofs/FruChecksumProofs.v) *)
+Theorem C15_accept_implies_checksums : forall img inv,
+  parse_inventory img = Ok (Some inv) -> checksums_hold img inv.
+Proof. exact accept_implies_checksums. Qed.
+Print Assumptions C15_accept_implies_checksums.
+
+(* Consequently: altering one byte that lies in the common header, in a parsed info
+   area (other than the area's length byte, which decides the extent), or in the header
+   or body of a parsed multi-record, makes the parser raise - for every accepted image,
+   every such position and every new value. *)
+Theorem C15_alteration_rejected : forall img inv i b,
+  parse_inventory img = Ok (Some inv) -> bytes_ok img = true -> (i < length img)%nat ->
+  covered inv i -> b < 256 -> b <> nth i img 0 ->
+  exists e, parse_inventory (upd img i b) = Err e.
+Proof. exact alteration_rejected. Qed.
+Print Assumptions C15_alteration_rejected.
+
+(* the two loops of the model never run out of their fuel *)
+Theorem C15_no_out_of_fuel : forall img, parse_inventory img <> Err OutOfFuel.
+Proof. exact parse_inventory_fuel. Qed.
+Print Assumptions C15_no_out_of_fuel.
+
+(* non-vacuity: a well-formed inventory with all areas and all four encodings exists, its
+   image is accepted, and positions of every kind are covered *)
+Example C15_wf_somewhere :
+  let s := mkSInv (hx "0102030405060708")
+      (Some (mkSArea 23 0 [SText (bytes_of_string "CH-1"); SBcd (bytes_of_string "12-34.")] []))
+      (Some (mkSArea 25 6451200 [SText (bytes_of_string "Kontron"); S6 (bytes_of_string "AM401");
+                                 SBcd (bytes_of_string "0023"); SBin [1; 2; 3]; SText []]
+                                [S6 (bytes_of_string "X1")]))
+      (Some (mkSArea 0 0 [SText []; SText []; SText []; SText []; SText []; SText []; SText []] []))
+      [mkSRec 2 [1; 2; 3]; mkSRec 0xc0 (hx "5a3100270000a401")] in
+  wf_inv s = true /\
+  parse_inventory (enc_inventory s) = Ok (Some (view_inventory s)) /\
+  covered (view_inventory s) 3 /\ covered (view_inventory s) 18 /\ covered (view_inventory s) 95.
+Proof. exact example_nonvacuous. Qed.
